@@ -483,6 +483,13 @@ example : (match Itext.run (Pyxv.C07.ex1 (Pyxv.C07.tr [("French", "B")])) with |
 
 /-! ## the tables the triggers are read from (pinned: the documented sets) -/
 
+/-- the implementation's subtag reader (`read_tags`) agrees with a plain reading of the two IANA files (split on
+    newlines, strip) at the table boundaries — first / last / shortest / longest entries and their near misses — and
+    on the number of entries.  Regenerated by the translator from the files and the reader of the current source. -/
+theorem iana_reader_agrees : ∀ e ∈ Pyxv.Gen.ianaBoundary, e.2.2.1 = e.2.2.2 := by decide +kernel
+example : 20 ≤ Pyxv.Gen.ianaBoundary.length ∧ (Pyxv.Gen.ianaBoundary.any fun e => e.2.2.1) = true ∧
+    (Pyxv.Gen.ianaBoundary.any fun e => !e.2.2.1) = true := by decide +kernel
+
 /-- the deprecated metadata types of the documentation -/
 theorem deprecated_pinned : deprecatedTypes = documentedDeprecated := deprecated_pinned'
 /-- the translatable columns of the two sheets -/
